@@ -95,7 +95,11 @@ fn main() {
                 let (prop, tier) = (prop.clone(), tier.clone());
                 let lo = t * chunk;
                 let hi = ((t + 1) * chunk).min(n);
+                let pdir = dir.clone();
                 handles.push(std::thread::spawn(move || {
+                    // progress file: the ops of the case that is running right now, so that a case
+                    // which hangs or kills the process (stack overflow, abort) can be identified
+                    let ppath = pdir.join(format!("running.{t}"));
                     let mut ops_all: Vec<String> = vec![];
                     let mut obs_all: Vec<String> = vec![];
                     let mut stats: BTreeMap<String, u64> = BTreeMap::new();
@@ -107,6 +111,7 @@ fn main() {
                         let mut lines = vec![format!("case {} {}", i, case.tag)];
                         lines.extend(case.ops.iter().cloned());
                         lines.push("end".to_string());
+                        let _ = std::fs::write(&ppath, lines.join("\n") + "\n");
                         let obs = run_ops(&lines);
                         hashes.push((hash_ops(&case.ops), case.nontrivial));
                         for (k, v) in &case.stats {
@@ -119,6 +124,7 @@ fn main() {
                         ops_all.extend(lines);
                         obs_all.extend(obs);
                     }
+                    let _ = std::fs::remove_file(&ppath);
                     (ops_all, obs_all, stats, hashes, samples)
                 }));
             }
